@@ -31,9 +31,11 @@ pub enum Workload {
     WakerLife,
     /// the task waker changes between polls; wakes land between polls; tiny populations
     TaskSwap,
+    /// the README pattern: a resident population, then one in / one out for many cycles
+    Conveyor,
 }
 
-pub const ALL_WORKLOADS: [Workload; 12] = [
+pub const ALL_WORKLOADS: [Workload; 13] = [
     Workload::Generic,
     Workload::Budget,
     Workload::Groups,
@@ -46,6 +48,7 @@ pub const ALL_WORKLOADS: [Workload; 12] = [
     Workload::AfterReady,
     Workload::WakerLife,
     Workload::TaskSwap,
+    Workload::Conveyor,
 ];
 
 const MSB: usize = !(usize::MAX >> 1);
@@ -76,6 +79,7 @@ struct BehMix {
     p_cross: u64,
     p_inf_src: u64,
     p_closed: u64,
+    p_panic: u64,
 }
 
 const DEFAULT_MIX: BehMix = BehMix {
@@ -87,6 +91,7 @@ const DEFAULT_MIX: BehMix = BehMix {
     p_cross: 5,
     p_inf_src: 4,
     p_closed: 35,
+    p_panic: 0,
 };
 
 fn gen_beh(r: &mut Rng, m: &BehMix, src: bool) -> Beh {
@@ -116,6 +121,7 @@ fn gen_beh(r: &mut Rng, m: &BehMix, src: bool) -> Beh {
             r.below(5) as u8
         },
         closed: src && r.chance(m.p_closed, 100),
+        panics: !src && m.p_panic > 0 && r.chance(m.p_panic, 100),
     }
 }
 
@@ -316,6 +322,7 @@ fn base_config(subject: SubjectKind, workload: Workload) -> Config {
         up_lo_slack: 0,
         up_hi_slack: Some(0),
         wakers_first: false,
+        shape: 0,
         workload: format!("{:?}", workload),
     }
 }
@@ -332,6 +339,7 @@ pub fn applies(workload: Workload, s: SubjectKind) -> bool {
         Workload::Cap => matches!(s, FUB | FU | FOB | FO | MB | MU | BU | BO | TBU | TBO | FEC),
         Workload::Stall => matches!(s, BO | TBO | FOB | FO),
         Workload::AfterReady => matches!(s, JA | TJA),
+        Workload::Conveyor => matches!(s, FUB | FU | FOB | FO),
     }
 }
 
@@ -344,6 +352,14 @@ pub fn generate(workload: Workload, subject: SubjectKind, seed: u64) -> (Config,
     let mut m = DEFAULT_MIX;
     if subject.is_try() {
         m.p_fail = 15;
+    }
+    // type shape of the children (drop glue or not), where the harness has the variants
+    if matches!(class, Class::Collection | Class::Join) && r.chance(3, 10) {
+        cfg.shape = r.range(1, 3) as u8;
+    }
+    // children that panic in poll: only joins are specified for what happens afterwards (C07)
+    if class == Class::Join && matches!(workload, Workload::AfterReady | Workload::Generic) && r.chance(1, 4) {
+        m.p_panic = 12;
     }
     // swarm: randomly disable some fault kinds for this run
     let mut w = class_weights(class, subject.ordered());
@@ -439,7 +455,11 @@ pub fn generate(workload: Workload, subject: SubjectKind, seed: u64) -> (Config,
     match workload {
         Workload::Generic => {}
         Workload::Budget => {
-            m.p_ready = 85;
+            m.p_ready = if r.chance(1, 2) { 85 } else { r.below(20) };
+            if m.p_ready < 20 {
+                m.p_selfinf = 0;
+                m.p_self1 = r.pick(&[0u64, 10]);
+            }
             let n = r.range(55, 140) as usize;
             match class {
                 Class::Collection | Class::Merge => {
@@ -552,6 +572,13 @@ pub fn generate(workload: Workload, subject: SubjectKind, seed: u64) -> (Config,
                     w.poll_many *= 4;
                     w.clonew *= 2;
                     w.dropw *= 2;
+                    if matches!(subject, SubjectKind::FU | SubjectKind::FO) && r.chance(3, 5) {
+                        // many small groups: creation, discard and rotation happen all the time
+                        cfg.ctor = Ctor::WithCapacity;
+                        cfg.cap = r.range(1, 3) as usize;
+                        cfg.initial.clear();
+                        m.p_ready = r.pick(&[40u64, 60, 80]);
+                    }
                     if subject == SubjectKind::MB {
                         cfg.cap = r.range(2, 40) as usize;
                         cfg.initial = (0..cfg.cap).map(|_| gen_beh(r, &m, true)).collect();
@@ -680,6 +707,48 @@ pub fn generate(workload: Workload, subject: SubjectKind, seed: u64) -> (Config,
             w.after_ready *= 8;
             w.ready *= 2;
             w.drive *= 2;
+        }
+        Workload::Conveyor => {
+            // resident population of pending futures, part of it drained, then one-in/one-out
+            let k = r.pick(&[2usize, 3, 5, 6, 33, 40, 65, 97, 100]);
+            let drain = if r.chance(1, 2) { r.below(k as u64) as usize } else { 0 };
+            cfg.initial.clear();
+            cfg.start_pos = None;
+            if subject.bounded() {
+                cfg.ctor = Ctor::New;
+                cfg.cap = k + 2 + r.below(3) as usize;
+            } else if r.chance(1, 2) {
+                cfg.ctor = Ctor::WithCapacity;
+                cfg.cap = r.range(1, 3) as usize;
+            } else {
+                cfg.ctor = Ctor::New;
+            }
+            let pending = Beh { store: r.below(2) as u8, ..Beh::default() };
+            for _ in 0..k {
+                trace.push(Op::Push { beh: pending, how: PushHow::Back });
+            }
+            trace.push(Op::Poll { fresh: false });
+            for _ in 0..drain {
+                // always the oldest resident
+                trace.push(Op::Ready { sel: 0, delay: false });
+            }
+            if drain > 0 {
+                trace.push(Op::PollMany { max: (drain + 2) as u16, fresh: false });
+            }
+            let resident = (k - drain) as u16;
+            // the first traveller
+            trace.push(Op::Push { beh: pending, how: PushHow::Back });
+            let cycles = r.range(20, 300);
+            for _ in 0..cycles {
+                trace.push(Op::Push { beh: pending, how: PushHow::Back });
+                // non-ready live futures in id order: residents, previous traveller, new traveller
+                trace.push(Op::Ready { sel: resident, delay: r.chance(1, 8) });
+                if r.chance(1, 8) {
+                    trace.push(Op::Deliver { sel: 0 });
+                }
+                trace.push(Op::PollMany { max: 3, fresh: r.chance(1, 10) });
+            }
+            n_ops = 0;
         }
         Workload::TaskSwap => {
             w.fresh_pct = 70;
